@@ -7,10 +7,17 @@ bytes equal) and correspondence with the Lean generic codec model run on the reg
 from __future__ import annotations
 
 import random
+import zlib
 
 from pycardano.exception import DeserializeException
 
 from vlib import typegen as T
+
+
+def pick(seed: str) -> int:
+    """a stable 3-way split of the cases (Python's own str hash changes with the interpreter's hash seed: a replay would take
+    another branch)"""
+    return zlib.crc32(seed.encode()) % 3
 
 
 def classify(e):
@@ -45,7 +52,7 @@ def check_object(ctx, case):
         err = None
     except Exception as e:
         y, err = None, e
-    if err is None and hash(case["seed"]) % 3 == 0:
+    if err is None and (pick(case["seed"]) == 0 or ctx.replay):
         # decoding is a function of the bytes: the same bytes decoded again (same process) give an equal, independent object
         try:
             y2 = cls.from_cbor(bytes(b))
@@ -56,6 +63,31 @@ def check_object(ctx, case):
         if again is not True:
             ctx.violation(f"{name}: decoding the same bytes a second time does not give the object of the first time", desc, repr(y)[:300],
                           again if isinstance(again, str) else repr(y2)[:300])
+    if err is None and (pick(case["seed"]) == 1 or ctx.replay):
+        # HISTORIES (vlib/history.py): (i) an earlier decoding of the same bytes is edited in place, the bytes are decoded again:
+        # the result must still be the original; (ii) of two equal objects one is serialized, both get the same in-place edit:
+        # their bytes must still agree (nothing remembered from the earlier serialization)
+        from vlib import history as H
+        mk = lambda: T.Gen(random.Random(case["seed"]), {}).obj(name, case["depth"])
+        try:
+            x0 = mk()
+            dh = H.decode_history(cls, b, x0, case["seed"] + "/dh") if x0 == x else None
+        except Exception:
+            dh = None
+        if dh is not None:
+            ctx.count("history:decode")
+            if not (dh["equal"] and dh["same_bytes"]):
+                ctx.violation(f"{name}: after an earlier decoding of the same bytes was edited in place ({dh['edit']}), decoding the "
+                              "bytes again does not return the original object", {**desc, "history": "decode"}, "the original", dh)
+        try:
+            eh = H.encode_history(mk, case["seed"] + "/eh")
+        except Exception:
+            eh = None
+        if eh is not None:
+            ctx.count("history:encode")
+            if not eh["agree"]:
+                ctx.violation(f"{name}: after the in-place edit {eh['edit']} an object that had been serialized before writes other bytes "
+                              "than an equal object that had not", {**desc, "history": "encode"}, eh["fresh"], eh["serialized_before"])
     if err is not None:
         ctx.violation(f"{name}: the encoded object cannot be decoded with the same type ({type(err).__name__}: {str(err)[:160]})",
                       desc, "an equal object", classify(err))
